@@ -828,6 +828,13 @@ Fixpoint seqs_from (n : N) (es : list event) : bool :=
 Record log_write := { lw_writes_line : bool; lw_flush : bool; lw_side_flush : bool }.
 Definition wf_log_write (w : log_write) : bool := lw_writes_line w && lw_flush w && lw_side_flush w.
 
+(* payloads taken from outside are bounded where they enter (rip_kernel::MAX_PAYLOAD_NESTING, /repo 4f61ba5): a frame
+   is one object around its payload and a snapshot one array around its frames, and the reader refuses 128 levels.
+   `guards` = the ingestion sites found holding the bound (provider events, function-call arguments, tool envelope,
+   POST /tasks).  This is the source-side reason why depth_ok / snapshot_depth_ok hold for emitted frames. *)
+Definition wf_payload_bound (bound : N) (guards : list bool) : bool :=
+  (bound + 2 <? 128) && forallb (fun g => g) guards && (4 <=? N.of_nat (length guards)).
+
 (* ---------- emit sites of the source (tools/gen/sinks.py -> Gen/Sinks.v) ----------
    `emit` above hands ONE value to all four sinks.  The extractor records, for every place where ripd publishes
    a frame, whether the same unmodified binding feeds the log append, the store next to it (sidecar or
